@@ -22,7 +22,7 @@ def run(R):
     if not rb.violated:
         raise vlib.MachineryError("vacuity: leaking design variant is not rejected")
     R.cov["model"] = {"module": "MCAllocFault", "distinct": r.distinct, "generated": r.generated, "broken_variants_rejected": 1}
-    runs = [("native", []), ("nommap", [])]
+    runs = [("native", []), ("nommap", []), ("native", ["errno=22"]), ("native", ["errno=11"])]      # EINVAL, EAGAIN instead of ENOMEM
     if thorough:
         runs += [("nommap2", []), ("native", ["big"]), ("nommap", ["big"]), ("portable", [])]
     R.build_all(sorted({v for v, _ in runs}))
@@ -30,7 +30,8 @@ def run(R):
     for variant, extra in runs:
         exe = R.cc("alloc_fault", ["alloc_fault.c"], variant, extra=[WRAP])
         tp = R.path("af", "%s-%s.ndjson" % (variant, "-".join(extra) or "min"))
-        R.run([exe, tp] + extra, timeout=1800)
+        env = {"VERIF_FAIL_ERRNO": extra[0].split("=")[1]} if extra and extra[0].startswith("errno=") else {}
+        R.run([exe, tp] + [x for x in extra if not x.startswith("errno=")], env=env, timeout=1800)
         traces.append((tp, variant, extra))
     res = R.tlc_shards("sys/TraceAllocFault.tla", "TraceAllocFault.cfg", [{"TRACE": t[0]} for t in traces], timeout=1200)
     nruns = 0
